@@ -10,6 +10,7 @@ import (
 	"errors"
 	"fmt"
 	"os"
+	"strconv"
 	"strings"
 	"testing"
 	"time"
@@ -21,12 +22,16 @@ import (
 	"github.com/nuts-foundation/nuts-node/network"
 	"github.com/nuts-foundation/nuts-node/network/dag"
 	"github.com/nuts-foundation/nuts-node/vdr/didnuts/didstore"
+	"github.com/nuts-foundation/nuts-node/vdr/resolver"
 )
 
 // how a pair enters the ambassador when it does not come straight through deliver(): as a DAG event
 type vEv struct {
 	Type  string `json:"type"`            // dag.Event.Type
-	Fault string `json:"fault,omitempty"` // "" | "db" (didStore.Add fails with a stoabs.ErrDatabase) | "other" (fails with a plain error)
+	// "" | "db" (didStore.Add fails with a stoabs.ErrDatabase) | "other" (Add fails with a plain error) |
+	// "lookup-db:<k>" / "lookup-other:<k>" (didStore.Resolve of the version named by the k-th prev fails in handleUpdateDIDDocument's
+	// loop) | "lookup-db:all" / "lookup-other:all" (every such lookup and the fallback lookup fail)
+	Fault string `json:"fault,omitempty"`
 }
 
 // what the model is told about the event
@@ -79,15 +84,61 @@ func (s *vNet) WithPersistency() network.SubscriberOption {
 	return func() dag.NotifierOption { return dag.WithRetryDelay(24 * time.Hour) }
 }
 
-// didstore.Store whose Add fails
+// didstore.Store (the ambassador's own handle n.didStore) with a failing call
 type vFaultStore struct {
 	didstore.Store
-	err error
+	err    error
+	add    bool // Add fails
+	lookup bool // Resolve(id, {AllowDeactivated, SourceTransaction}) fails at call number k (or at all of them, and the fallback lookup)
+	k      int
+	all    bool
+	calls  int
+	hit    bool // the failing call was executed
 }
 
-func (f vFaultStore) Add(_ did.Document, _ didstore.Transaction) error { return f.err }
+func (f *vFaultStore) Add(doc did.Document, tx didstore.Transaction) error {
+	if f.add {
+		f.hit = true
+		return f.err
+	}
+	return f.Store.Add(doc, tx)
+}
+
+func (f *vFaultStore) Resolve(id did.DID, md *resolver.ResolveMetadata) (*did.Document, *resolver.DocumentMetadata, error) {
+	if f.lookup && md != nil && md.AllowDeactivated {
+		if md.SourceTransaction != nil {
+			k := f.calls
+			f.calls++
+			if f.all || k == f.k {
+				f.hit = true
+				return nil, nil, f.err
+			}
+		} else if f.all && md.ResolveTime == nil && md.Hash == nil {
+			f.hit = true
+			return nil, nil, f.err
+		}
+	}
+	return f.Store.Resolve(id, md)
+}
+
+// "lookup-db:1" -> (lookup, db, k=1); "db" -> (add, db)
+func vParseFault(s string) (lookup, db, all bool, k int) {
+	kind := s
+	if i := strings.Index(s, ":"); i >= 0 {
+		kind = s[:i]
+		if s[i+1:] == "all" {
+			all = true
+		} else {
+			k, _ = strconv.Atoi(s[i+1:])
+		}
+	}
+	lookup = strings.HasPrefix(kind, "lookup-")
+	db = strings.HasSuffix(kind, "db")
+	return
+}
 
 const vFaultDB, vFaultOther = "verif-fault-db", "verif-fault-other"
+const vFaultLookupDB, vFaultLookupOther = "verif-lookup-fault-db", "verif-lookup-fault-other"
 
 func vFaultClass(msg string) (string, bool) {
 	switch {
@@ -95,6 +146,10 @@ func vFaultClass(msg string) (string, bool) {
 		return "err:store:fault:db", true
 	case strings.Contains(msg, vFaultOther):
 		return "err:store:fault:other", true
+	case strings.Contains(msg, vFaultLookupDB) && strings.HasPrefix(msg, "unable to update DID document: "):
+		return "err:update:resolve:fault:db", true
+	case strings.Contains(msg, vFaultLookupOther) && strings.HasPrefix(msg, "unable to update DID document: "):
+		return "err:update:resolve:fault:other", true
 	}
 	return "", false
 }
@@ -153,7 +208,7 @@ func (n *vNode) viaEntry(p *vPair) (class string) {
 	}()
 	n.startSub()
 	ev := dag.Event{Type: p.Ev.Type, Hash: p.tx.Ref(), Transaction: p.tx, Payload: p.payload}
-	n.reached, n.ack = false, ""
+	n.reached, n.ack, n.faultHit = false, "", false
 	switch p.Ev.Fault {
 	case "":
 		n.notifier.Notify(ev)
@@ -165,12 +220,15 @@ func (n *vNode) viaEntry(p *vPair) (class string) {
 			return "filtered"
 		}
 		real := n.amb.didStore
-		var ferr error = errors.New(vFaultOther)
-		if p.Ev.Fault == "db" {
-			ferr = stoabs.DatabaseError(errors.New(vFaultDB))
+		lookup, db, all, k := vParseFault(p.Ev.Fault)
+		name := map[[2]bool]string{{false, false}: vFaultOther, {false, true}: vFaultDB, {true, false}: vFaultLookupOther, {true, true}: vFaultLookupDB}[[2]bool{lookup, db}]
+		var ferr error = errors.New(name)
+		if db {
+			ferr = stoabs.DatabaseError(ferr)
 		}
-		n.amb.didStore = vFaultStore{Store: real, err: ferr}
-		defer func() { n.amb.didStore = real }()
+		fs := &vFaultStore{Store: real, err: ferr, add: !lookup, lookup: lookup, k: k, all: all}
+		n.amb.didStore = fs
+		defer func() { n.amb.didStore = real; n.faultHit = fs.hit }()
 		fin, err := n.recv(ev)
 		return vAckClass(fin, err)
 	}
@@ -185,11 +243,15 @@ var vEvTypes = []string{dag.PayloadEventType, dag.PayloadEventType, dag.PayloadE
 // a random way of arriving: mostly the payload event, sometimes another event type, sometimes with a failing store
 func (g *vGen) randomEv() *vEv {
 	ev := &vEv{Type: vEvTypes[g.rng.Intn(len(vEvTypes))]}
-	switch g.rng.Intn(5) {
+	switch g.rng.Intn(8) {
 	case 0:
 		ev.Fault = "db"
 	case 1:
 		ev.Fault = "other"
+	case 2:
+		ev.Fault = fmt.Sprintf("lookup-db:%d", g.rng.Intn(3))
+	case 3:
+		ev.Fault = []string{"lookup-other:0", "lookup-db:all", "lookup-other:1"}[g.rng.Intn(3)]
 	}
 	return ev
 }
@@ -249,5 +311,80 @@ func vEntryScenario(g *vGen, run func(p *vPair) bool) {
 	// F: an ill-formed document through the subscription (fatal), also with a failing store behind it
 	for _, fault := range []string{"", "db"} {
 		run(as(g.create("ev:create-ill-formed", nil, func(s *vDocSpec, _ *vKey) { g.violate("vm-thumbprint-mismatch", s) }, nil), dag.PayloadEventType, fault))
+	}
+}
+
+// scripted: a version lookup fails while an update names several versions. X lists K1 and K2 (tx1); tx2 removes K2; the holder of
+// K2 signs updates naming [tx1, tx2] / [tx2, tx1] while the lookup of the first / second / every named version fails (database
+// error: deferred; other error: dropped), each followed by the same transaction against a working store (still refused).
+// Legitimate updates by K1 run through the same faults and must succeed on the retry.
+func vLookupFaultScenario(g *vGen, run func(p *vPair) bool) {
+	as := func(p *vPair, fault string) *vPair { p.Ev = &vEv{Type: dag.PayloadEventType, Fault: fault}; return p }
+	again := func(p *vPair, fault string, pend func(bool)) *vPair {
+		dup := *p
+		dup.Kind = p.Kind + ":again"
+		dup.Ev = &vEv{Type: dag.PayloadEventType, Fault: fault}
+		g.pairs = append(g.pairs, &dup)
+		g.pending = pend
+		return &dup
+	}
+	run(g.create("lf:create", nil, func(s *vDocSpec, k *vKey) {
+		k2 := g.freshKey()
+		id := s.ID + "#" + k2.b64
+		s.VMs = append(s.VMs, vVMSpec{ID: id, Key: k2})
+		s.Rels["capabilityInvocation"] = append(s.Rels["capabilityInvocation"], id)
+	}, nil))
+	d := g.dids[g.order[len(g.order)-1]]
+	if d == nil || d.latest() == nil || len(d.latest().spec.capInvKeys()) < 2 {
+		return
+	}
+	v1 := *d.latest()
+	ci := v1.spec.capInvKeys()
+	gone := ci[1]
+	// the verification method stays (so that its kid still resolves under either order of the prevs); only the authorisation goes
+	run(g.update(vUpdateOpts{kind: "lf:remove-key", target: d, signer: func() (*vKey, string, []hash.SHA256Hash) { return ci[0].Key, ci[0].ID, nil },
+		next: func(s *vDocSpec) { s.Rels["capabilityInvocation"] = []interface{}{ci[0].ID} }}))
+	if len(d.versions) < 2 {
+		return
+	}
+	v2 := *d.latest()
+	takeover := func(s *vDocSpec) { *s = vDocUnderDID(gone.Key, s.ID) }
+	faults := []string{"lookup-db:1", "lookup-db:0", "lookup-other:1", "lookup-db:all", "lookup-db:2"}
+	for oi, order := range [][]hash.SHA256Hash{{v1.ref, v2.ref}, {v2.ref, v1.ref}} {
+		order := order
+		from := &v1
+		if order[0] == v2.ref {
+			from = &v2
+		}
+		for fi, fault := range faults {
+			if oi == 1 && fi >= 2 {
+				break
+			}
+			p := g.update(vUpdateOpts{kind: "lf:removed-key-names-both-versions", target: d, from: from, next: takeover,
+				signer: func() (*vKey, string, []hash.SHA256Hash) { return gone.Key, gone.ID, order[1:] }})
+			pend := g.pending
+			run(as(p, fault))
+			run(again(p, "", pend))
+		}
+	}
+	// the remaining key's holder: a legitimate update naming both versions, deferred by the fault, accepted on the retry
+	for _, fault := range []string{"lookup-db:1", "lookup-other:0"} {
+		p := g.update(vUpdateOpts{kind: "lf:legitimate-update-names-both-versions", target: d, from: &v2, next: g.randomEdit,
+			signer: func() (*vKey, string, []hash.SHA256Hash) { return ci[0].Key, ci[0].ID, []hash.SHA256Hash{v1.ref} }})
+		pend := g.pending
+		run(as(p, fault))
+		if fault == "lookup-db:1" {
+			run(again(p, "", pend))
+		}
+	}
+	// an update whose prevs name no version of the DID at all: the fallback lookup fails
+	if len(g.allRefs) > 0 {
+		p := g.update(vUpdateOpts{kind: "lf:update-fallback-lookup", target: d, next: g.randomEdit, sign: func(s *vSignSpec) {
+			s.prevs = []hash.SHA256Hash{hash.SHA256Sum([]byte("no such transaction"))}
+			s.clock = 1
+		}})
+		pend := g.pending
+		run(as(p, "lookup-db:all"))
+		run(again(p, "", pend))
 	}
 }
